@@ -179,7 +179,7 @@ def real_run(wk, mx, jit, mode, nreq, seed, bind="tcp"):
     if mode == "drain":
         args += ["--timeout", "2"]
         args[args.index("--graceful-timeout") + 1] = "12"
-    nworkers = 1 if mode in ("burst", "parked", "drain", "twolisten", "ka0", "bodiless") else 2
+    nworkers = 1 if mode in ("burst", "parked", "drain", "twolisten", "ka0", "bodiless", "slowhead") else 2
     s = rp.Server(wk, workers=nworkers, threads=(1 if mode == "burst" else 2) if wk == "gthread" else None, args=args, name="c18",
                   bind=bind)
     pids = {}
@@ -260,6 +260,31 @@ def real_run(wk, mx, jit, mode, nreq, seed, bind="tcp"):
             for i in range(mx - 1):
                 one("/pid")
             th.join()
+        elif mode == "slowhead":
+            # a connection accepted before the limit sends the end of its request head only after the worker has reached
+            # the limit and closed its listeners: the request is answered all the same (by the old worker, as one request
+            # beyond the limit, or -- had the worker not read a byte of it -- never by nobody)
+            allow = 1
+            a = s.connect(timeout=10)
+            a.sendall(b"GET /pid HTTP/1.1\r\nHost: h\r\nConnection: close\r\nX-Slow: ")
+            time.sleep(0.3)
+            for i in range(mx - 1):
+                one("/pid")
+            time.sleep(1.6)
+            try:
+                a.sendall(b"yes\r\n\r\n")
+                st, body, info = rp.read_response(a)
+                pid, _ = rp.parse_ident(body)
+                ok = st == 200 and pid is not None and info["complete"]
+                rec = {"e": "resp", "ok": bool(ok), "pid": pid_id(pid) if pid else 0}
+                if not ok:
+                    rec["why"] = "slow head: status=%s closed=%s reset=%s" % (st, info["closed"], info["reset"])
+            except OSError as e:
+                rec = {"e": "resp", "ok": False, "pid": 0, "why": "slow head: %s" % e}
+            ev.append(rec)
+            a.close()
+            for i in range(nreq):
+                one("/pid")
         elif mode == "ka0":
             # keep-alive switched off: the limit applies all the same (requests paced so that a connection is not made
             # in the second in which the worker leaves)
@@ -333,7 +358,7 @@ def real_run(wk, mx, jit, mode, nreq, seed, bind="tcp"):
         ev.append({"e": "end", "alive": sorted(alive), "initial": sorted(pid_id(p) for p in initial)})
         tr = {"max": mx, "jit": jit, "allow": allow, "workers": nworkers, "npids": max(len(pids), 1),
               "initial": sorted(pid_id(p) for p in initial), "ev": ev}
-        return tr, {"where": ("real-" + mode if mode in ("burst", "parked", "drain", "twolisten", "ka0", "bodiless", "mstop") else "real") + ("-unix" if bind == "unix" else ""), "wk": wk, "mode": mode, "nreq": nreq,
+        return tr, {"where": ("real-" + mode if mode in ("burst", "parked", "drain", "twolisten", "ka0", "bodiless", "mstop", "slowhead") else "real") + ("-unix" if bind == "unix" else ""), "wk": wk, "mode": mode, "nreq": nreq,
                     "fails": [e.get("why") for e in ev if e.get("e") == "resp" and not e["ok"]][:3]}
     finally:
         s.cleanup()
@@ -370,11 +395,13 @@ def c18(ctx):
             ("eventlet", 2, 0, "twolisten", 0), ("gthread", 3, 0, "ka0", 6),
             # a unix-socket bind: the path must stay connectable through the recycling
             ("gthread", 3, 0, "ka0", 6, "unix"), ("eventlet", 3, 0, "ka0", 6, "unix"),
-            ("gevent", 3, 0, "bodiless", 8), ("gevent", 4, 0, "bodiless", 8), ("sync", 2, 0, "mstop", 8)]
+            ("gevent", 3, 0, "bodiless", 8), ("gevent", 4, 0, "bodiless", 8), ("sync", 2, 0, "mstop", 8),
+            ("gevent", 3, 0, "slowhead", 2), ("eventlet", 3, 0, "slowhead", 2)]
     if not ctx.quick:
         plan += [("gevent", 2, 0, "twolisten", 0), ("gthread", 2, 0, "twolisten", 0), ("sync", 2, 0, "twolisten", 0),
                  ("sync", 3, 0, "ka0", 6), ("gevent", 3, 0, "ka0", 6), ("sync", 3, 0, "ka0", 6, "unix"), ("gevent", 3, 0, "ka0", 6, "unix"),
                  ("eventlet", 3, 0, "bodiless", 8), ("gthread", 3, 0, "bodiless", 8), ("gevent", 5, 1, "bodiless", 12), ("eventlet", 4, 0, "parked", 4), ("gthread", 4, 0, "parked", 4), ("eventlet", 3, 0, "drain", 0), ("gthread", 3, 0, "drain", 0),
+                 ("gthread", 3, 0, "slowhead", 2), ("gevent", 2, 0, "slowhead", 3),
                  ("sync", 3, 0, "burst", 4), ("gevent", 3, 0, "burst", 4), ("eventlet", 3, 0, "burst", 4), ("gthread", 2, 0, "burst", 3)]
         plan += [(wk, mx, jit, mode, 24) for wk in ("sync", "gthread", "gevent", "eventlet")
                  for (mx, jit) in ((1, 0), (2, 1), (4, 2), (0, 0)) for mode in ("seq", "conc")]
